@@ -124,12 +124,29 @@ func init() {
 			r := gen.LogF(g.t, 0.05, 0.8, lab+".r")
 			p2 := p1.Add(gen.Dir3(g.t, lab+".dir").Unit().Scale(r * gen.LogF(g.t, 0.2, 20, lab+".len")))
 			return &node{Op: "screw3", P: []kit.V3{p1, p2}, F: []float64{r, r * gen.LogF(g.t, 0.02, 1, lab+".groove")},
-				I: []int{rapid.IntRange(0, 1).Draw(g.t, lab+".pointed")}}
+				I: []int{rapid.IntRange(0, 1).Draw(g.t, lab+".pointed")},
+				// "derived": the screw is a modified copy of another screw whose bounds have been asked for already
+				// (hole := *screw; hole.Radius += slack), or that other screw itself, modified in place
+				Bits: rapid.SampledFrom([]string{"", "", "derived-copy", "derived-in-place"}).Draw(g.t, lab+".derived")}
 		},
 		build: func(b *built) {
 			p1, p2, r, gr := b.n.P[0], b.n.P[1], b.n.F[0], b.n.F[1]
 			pointed := b.n.I[0] == 1
-			b.set3(&toolbox3d.ScrewSolid{P1: m3.C3(p1), P2: m3.C3(p2), Radius: r, GrooveSize: gr, Pointed: pointed})
+			screw := &toolbox3d.ScrewSolid{P1: m3.C3(p1), P2: m3.C3(p2), Radius: r, GrooveSize: gr, Pointed: pointed}
+			if b.n.Bits != "" {
+				other := &toolbox3d.ScrewSolid{P1: m3.C3(p1), P2: m3.C3(p1.Mid(p2)), Radius: r * 0.4, GrooveSize: gr * 0.4, Pointed: !pointed}
+				other.Min()
+				other.Max()
+				other.Contains(m3.C3(p1))
+				if b.n.Bits == "derived-copy" {
+					cp := *other
+					screw = &cp
+				} else {
+					screw = other
+				}
+				screw.P2, screw.Radius, screw.GrooveSize, screw.Pointed = m3.C3(p2), r, gr, pointed
+			}
+			b.set3(screw)
 			u := p2.Sub(p1).Unit()
 			h := p1.Dist(p2)
 			// documented: like a cylinder of the maximum radius with grooves of the given size
